@@ -29,6 +29,12 @@ RULE = (
     "(arrays, objects, alternating, at the top and below a prefix; only depths the unmodified library handles in both configurations, "
     "measured at run time); 1 MiB strings and keys; 100k-member arrays and objects) and seeded deep values; each value is dumped "
     "by the real fast_json under both configurations, both texts are loaded under both configurations, and all of it is compared "
+    "with the Lean model (hardening: falsy values and type twins in both orders, JSON-looking / format-hostile / 100 kB texts as "
+    "strings and keys, string lengths 7..65537 with an escape at either end, re-encoding a mutated object and decoding a text "
+    "twice; suite entry-points: dumps with indent/separators/ensure_ascii/sort_keys/default, dump() to a text stream, loads of "
+    "bytes/bytearray, load() from text and binary streams; suite foreign-texts: other valid RFC 8259 renderings - whitespace, "
+    "\\/ and unnecessary or upper-case \\u escapes, surrogate-pair escapes, exponent spellings, -0 - decoded under both "
+    "configurations and by the model's dec) "
     "with the Lean model; non-trivial = distinct value that is not a bare null/boolean"
 )
 TRUSTED = [
@@ -38,7 +44,11 @@ TRUSTED = [
 ASSUMPTIONS = [
     "integers outside -2^63..2^64-1, NaN/Infinity and lone surrogates are outside the property (only the no-line-break part is checked for big integers)",
     "object members have distinct keys (a Python dict cannot have duplicates); value equality ignores member order",
-    "dumps is called without keyword arguments (the compact form the transports use); indent=... is a different, non-compact encoding",
+    "dumps is called without keyword arguments (the compact form the transports use); indent=... is a different, non-compact encoding "
+    "(the entry-points suite still demands the round trip for it, not the absence of line breaks)",
+    "observed, not demanded: fast_json.dump() to a BINARY stream works only when orjson is importable (the stdlib path writes str and "
+    "raises TypeError), loads(memoryview) likewise; both are outside the declared signatures (text stream; str | bytes)",
+    "nesting deeper than the interpreter's own recursion limits (measured at run time, see notes) is outside: every Python JSON codec raises there",
 ]
 
 LEAVES_D2 = [None, True, False, {"i": 0}, {"i": -1}, {"i": 2 ** 64 - 1}, {"f": (1.5).hex()}, {"s": []}, {"s": [97]}, {"s": [0x2028]}]
@@ -97,6 +107,8 @@ class Codec(Suite):
         )
         for tag, v in J.directed_limits(max_depth):
             out.append({"g": "limits/" + tag, "v": v})
+        for tag, v in J.directed_hardening():
+            out.append({"g": "directed/" + tag, "v": v})
         d2 = J.exhaustive(LEAVES_D2, KEYS, 2, 2)
         out += [{"g": "exhaustive/depth<=2", "v": v} for v in d2]
         d3 = [v for v in J.exhaustive(LEAVES_D3, KEYS, 3, 2) if J.depth(v) == 3]
@@ -134,6 +146,9 @@ class Codec(Suite):
                     texts.append(r["text"])
         lo = wo.call({"op": "loads", "texts": texts})["out"]
         ls = ws.call({"op": "loads", "texts": texts})["out"]
+        small = [i for i, c in enumerate(cases) if not J.is_compact(c["v"])]
+        ro = wo.call({"op": "reuse", "values": [vals[i] for i in small]})["out"]
+        rs = ws.call({"op": "reuse", "values": [vals[i] for i in small]})["out"]
         obs = []
         for i in range(len(cases)):
             obs.append({
@@ -144,6 +159,8 @@ class Codec(Suite):
         for (i, tag), a, b in zip(idx, lo, ls):
             obs[i]["loads"][tag + "o"] = a  # text written under `tag`, read under the orjson configuration
             obs[i]["loads"][tag + "s"] = b
+        for i, a, b in zip(small, ro, rs):
+            obs[i]["reuse"] = {"o": a, "s": b}
         self._obs = {id(c): o for c, o in zip(cases, obs)}
         self._tok = getattr(self, "_tok", {})
         self._tok["o"] = {**self._tok.get("o", {}), **do["tokens"]}
@@ -156,7 +173,7 @@ class Codec(Suite):
         o = getattr(self, "_obs", {}).get(id(case))
         if tok is None or o is None:
             return None
-        if J.is_compact(case["v"]):
+        if J.is_compact(case["v"]) or J.text_size(case["v"]) > 3000:
             return None  # very deep / long / wide: property oracle only
         try:
             vo = J.with_tokens(case["v"], tok["o"])
@@ -226,6 +243,12 @@ class Codec(Suite):
             if "\n" in d["text"] or "\r" in d["text"]:
                 return ("raw-line-break/" + tag, f"compact encoding contains a raw line break ({name}): {d['text']!r:.200}",
                         {"line_breaks": 0})
+        for tag, r in (o.get("reuse") or {}).items():
+            name = "orjson importable" if tag == "o" else "orjson absent"
+            if r.get("dumps_sees_mutation") is False or r.get("dumps_repeatable") is False:
+                return ("stale-dumps/" + tag, f"encoding the same object again does not reflect its current value ({name})", None)
+            if r.get("loads_independent") is False:
+                return ("aliased-loads/" + tag, f"decoding the same text twice does not give independent, equal values ({name})", None)
         if not J.fits64(v):
             return None
         want = core.canon(J.unordered(v))
@@ -251,11 +274,178 @@ class Codec(Suite):
             yield {"g": "shrunk", "v": v}
 
 
+INDENTED = {"indent2", "indent0", "indent4", "file-indent2"}
+HOWS = ["indent2", "indent0", "indent4", "indentNone", "compact-seps", "utf8", "sort_keys", "default-str", "pydantic-base", "file", "file-indent2"]
+READS = ["str", "bytes", "bytearray", "file-text", "file-bytes"]
+
+
+class EntryPoints(Suite):
+    """the other entry points and call forms of fast_json: dumps with the keyword arguments callers pass
+    (indent, separators, ensure_ascii, sort_keys, default), dump() to a text stream, loads of bytes /
+    bytearray, load() from text and binary streams.  Oracle only (round trip in all four backend pairs;
+    no raw line break unless the caller asked for indentation)."""
+    name = "entry-points"
+    uses_model = False
+
+    def cases(self, ctx, budget):
+        rng = ctx.sub_rng("c17-entry", budget)
+        vals = [v for _, v in J.directed() if not J.is_compact(v)][:: (6 if budget == "quick" else 1)]
+        vals += [v for tag, v in J.directed_hardening() if tag in ("falsy", "twin", "text")][:: (5 if budget == "quick" else 1)]
+        vals += [J.chain("alt", d, {"s": J.cps("é")}) for d in (200, 1100)]
+        vals += [J.rand_value(rng, rng.choice([3, 4, 5]), 0.0, 3) for _ in range(150 if budget == "quick" else 3000)]
+        out = []
+        for i, v in enumerate(vals):
+            hows = HOWS if budget != "quick" else [HOWS[i % len(HOWS)], HOWS[(i * 7 + 3) % len(HOWS)]]
+            if J.depth(v) > 400:
+                # indentation and dump() go through the stdlib's pure-Python encoder, whose depth is bounded by the
+                # interpreter's (much lower) Python recursion limit under both configurations: nothing to demand there
+                hows = [h for h in HOWS if h not in INDENTED and not h.startswith("file")]
+            for how in hows:
+                out.append({"g": "entry/" + how, "v": v, "how": how, "read": READS[(i + len(how)) % len(READS)]})
+        for j, read in enumerate(READS):  # plain dumps, every way of reading
+            for v in vals[j::5][:60]:
+                out.append({"g": "entry/plain", "v": v, "how": "plain", "read": read})
+        return out
+
+    def impl_batch(self, cases):
+        wo, ws = J.worker(block_orjson=False), J.worker(block_orjson=True)
+        items = [{"v": c["v"], "how": c["how"]} for c in cases]
+        do = wo.call({"op": "dumps2", "items": items})["out"]
+        ds = ws.call({"op": "dumps2", "items": items})["out"]
+        reads, idx = [], []
+        for i, (c, a, b) in enumerate(zip(cases, do, ds)):
+            for tag, r in (("o", a), ("s", b)):
+                if "text" in r:
+                    idx.append((i, tag))
+                    reads.append({"t": r["text"], "how": c["read"]})
+        lo = wo.call({"op": "loads2", "items": reads})["out"]
+        ls = ws.call({"op": "loads2", "items": reads})["out"]
+        obs = [{"dumps": {"o": a, "s": b}, "loads": {}} for a, b in zip(do, ds)]
+        for (i, tag), a, b in zip(idx, lo, ls):
+            obs[i]["loads"][tag + "o"] = a
+            obs[i]["loads"][tag + "s"] = b
+        return obs
+
+    def oracle(self, case, o):
+        v, how = case["v"], case["how"]
+        fits = J.fits64(v)
+        for tag in ("o", "s"):
+            d = o["dumps"][tag]
+            name = "orjson importable" if tag == "o" else "orjson absent"
+            if "text" not in d:
+                if fits:
+                    return (f"dumps-raises/{how}/{tag}", f"encoding via {how} raises {d.get('exc')} ({name})", None)
+                continue
+            if how not in INDENTED and ("\n" in d["text"] or "\r" in d["text"]):
+                return (f"raw-line-break/{how}/{tag}", f"compact encoding via {how} contains a raw line break ({name})", None)
+        if not fits:
+            return None
+        want = core.canon(J.unordered(v))
+        for wtag in ("o", "s"):
+            for rtag in ("o", "s"):
+                got = o["loads"].get(wtag + rtag)
+                pair = (f"written via {how} with {'orjson' if wtag == 'o' else 'stdlib'}, read via {case['read']} with "
+                        f"{'orjson' if rtag == 'o' else 'stdlib'}")
+                if got is None or "v" not in got:
+                    return (f"loads-raises/{case['read']}/{wtag}{rtag}", f"decoding raises {got and got.get('exc')} ({pair})", {"value": v})
+                if core.canon(J.unordered(got["v"])) != want:
+                    return (f"roundtrip/{how}/{case['read']}/{wtag}{rtag}", f"decoded value differs from the encoded one ({pair})", {"value": v})
+        return None
+
+    def kind(self, case, o):
+        return f"{case['g']}/read-{case['read']}"
+
+    def shrink_candidates(self, case):
+        for v in J.shrink_value(case["v"]):
+            yield dict(case, v=v)
+
+
+def _skeleton(rng, depth_left=3):
+    """a float-free value whose leaves may be float TOKENS ({"tok": text}); returns (skeleton, expected transport)"""
+    r = rng.random()
+    if depth_left <= 1 or r < 0.4:
+        k = rng.randrange(6)
+        if k == 0:
+            x = rng.choice([None, True, False])
+            return x, x
+        if k == 1:
+            x = {"i": J.rand_int(rng)}
+            return x, x
+        if k == 2:
+            tok = rng.choice(J.FLOAT_TOKENS)
+            return {"tok": tok}, {"f": float(tok).hex()}
+        x = {"s": J.rand_cps(rng)}
+        return x, x
+    if r < 0.7:
+        parts = [_skeleton(rng, depth_left - 1) for _ in range(rng.randrange(0, 4))]
+        return {"a": [p[0] for p in parts]}, {"a": [p[1] for p in parts]}
+    keys, ms, es = set(), [], []
+    for _ in range(rng.randrange(0, 4)):
+        k = tuple(J.rand_cps(rng, 4))
+        if k in keys:
+            continue
+        keys.add(k)
+        a, b = _skeleton(rng, depth_left - 1)
+        ms.append([list(k), a])
+        es.append([list(k), b])
+    return {"o": ms}, {"o": es}
+
+
+class ForeignTexts(Suite):
+    """valid RFC 8259 texts that neither encoder writes (whitespace between tokens, `\\/`, upper-case and
+    unnecessary `\\uXXXX` escapes, surrogate-pair escapes, exponent spellings, `-0`): decoding must not
+    depend on the backend and must give the value the text denotes; compared with the model's `dec`."""
+    name = "foreign-texts"
+
+    def cases(self, ctx, budget):
+        rng = ctx.sub_rng("c17-foreign", budget)
+        out = []
+        for _ in range(400 if budget == "quick" else 8000):
+            sk, want = _skeleton(rng, rng.choice([2, 3, 4]))
+            out.append({"g": "foreign", "text": J.render_foreign(sk, rng), "v": want, "read": rng.choice(READS)})
+        return out
+
+    def impl_batch(self, cases):
+        wo, ws = J.worker(block_orjson=False), J.worker(block_orjson=True)
+        items = [{"t": c["text"], "how": c["read"]} for c in cases]
+        lo = wo.call({"op": "loads2", "items": items})["out"]
+        ls = ws.call({"op": "loads2", "items": items})["out"]
+        return [{"o": a, "s": b} for a, b in zip(lo, ls)]
+
+    def model_line(self, case):
+        return {"m": "json", "op": "dec", "t": J.cps(case["text"])}
+
+    def model_obs(self, out, case):
+        r = out.get("r")
+        return None if r is None else {"v": J.from_model(r["v"])}
+
+    def compare(self, case, o, m):
+        if m is None:
+            return "the model's decoder rejects a text both backends are expected to accept"
+        for tag in ("o", "s"):
+            if "v" not in o[tag] or core.canon(o[tag]["v"]) != core.canon(m["v"]):
+                return f"loads ({tag}) differs from the model's decoder"
+        return None
+
+    def oracle(self, case, o):
+        want = core.canon(J.unordered(case["v"]))
+        for tag in ("o", "s"):
+            name = "orjson importable" if tag == "o" else "orjson absent"
+            if "v" not in o[tag]:
+                return (f"foreign-rejected/{tag}", f"a valid JSON text is rejected ({name}, read via {case['read']}): {o[tag].get('exc')}", {"value": case["v"]})
+            if core.canon(J.unordered(o[tag]["v"])) != want:
+                return (f"foreign-misread/{tag}", f"a valid JSON text decodes to a different value ({name}, read via {case['read']})", {"value": case["v"]})
+        return None
+
+    def kind(self, case, o):
+        return f"foreign/read-{case['read']}"
+
+
 _codec = Codec()
 
 
 def suites():
-    return [_codec]
+    return [_codec, EntryPoints(), ForeignTexts()]
 
 
 def extra(ctx, tier):
